@@ -419,6 +419,25 @@ def r19_5(ctx, rr):
         for x in walk(f["args"][0]):
             if x.get("k") == "Binary" and tab_id(x["l"]) == P_:
                 oks = (x["op"] == "<=" and x["r"].get("v") == "1") or (x["op"] == "<" and x["r"].get("v") == "2")
+    # ... or with a filter over the elements of the priorities themselves (`priority.iter().enumerate().filter(|&(_, &p)| p <= 1)`)
+    if not seeds:
+        def chain_root(e):
+            while e.get("k") == "MethodCall":
+                e = e["recv"]
+            while e.get("k") in ("AddrOf", "Field") or (e.get("k") == "Unary" and e.get("op") == "*"):
+                e = e["e"]
+            return e
+        for f in [n for n in walk(b.body) if n.get("k") == "MethodCall" and n["name"] == "filter" and n["args"] and n["args"][0].get("k") == "Closure"]:
+            r = chain_root(f["recv"])
+            if r.get("k") == "Path" and r.get("id") == P_:
+                bound = set(pid for q in f["args"][0].get("params", []) for _nm, pid in pat_bindings(q))
+                for x in walk(f["args"][0]["body"]):
+                    if x.get("k") == "Binary" and x["op"] in ("<=", "<", ">", ">=", "==", "!="):
+                        l = x["l"]
+                        while l.get("k") in ("AddrOf",) or (l.get("k") == "Unary" and l.get("op") == "*"):
+                            l = l["e"]
+                        if l.get("k") == "Path" and l.get("id") in bound:
+                            oks = (x["op"] == "<=" and x["r"].get("v") == "1") or (x["op"] == "<" and x["r"].get("v") == "2")
     rr.check(oks, "lazy:initial-ready-list", "lazy_gaussian_elimination: the ready list starts with every equation of priority <= 1", b.span)
     # (6) activation clears the idle flag of the chosen variable
     rr.instances += 1
